@@ -326,13 +326,26 @@ func runC08(c *CaseCtx) (res CaseResult) {
 	rc := genRedefine(r)
 	s := rc.S
 	res.Key = rc.String()
-	in, err := Instantiate(s, r)
+	// one case in four: the filters are default options of the target
+	// (given to NewFunc), not options of Redefine
+	filtersAsDefaults := r.Intn(4) == 0
+	var tdef []am.Arg
+	if filtersAsDefaults {
+		if rc.InAllowed != nil {
+			tdef = append(tdef, am.FilterInput(filterOf(rc.InAllowed, rc.FilterK)))
+		}
+		if rc.OutAllow != nil {
+			tdef = append(tdef, am.FilterOutput(filterOf(rc.OutAllow, (rc.FilterK+1)%4)))
+		}
+		res.obs("cases_with_filters_as_default_options", 1)
+	}
+	in, err := Instantiate(s, r, tdef...)
 	if err != nil {
 		res.Skip = "instantiate"
 		return res
 	}
 	det := func(extra map[string]interface{}) interface{} {
-		m := map[string]interface{}{"case": rc.String()}
+		m := map[string]interface{}{"case": rc.String(), "filters_as_defaults": filtersAsDefaults}
 		for k, v := range extra {
 			m[k] = v
 		}
@@ -341,8 +354,17 @@ func runC08(c *CaseCtx) (res CaseResult) {
 	reps := tierReps(c.Tier, 2, 4)
 	for k := 0; k < reps; k++ {
 		call := k
-		o := DoRedefine(in.W, in.Target.Func, rc.opts(in, call, r))
+		ropts := rc.opts(in, call, r)
+		if filtersAsDefaults {
+			ropts = in.AllArgs(call, r)
+		}
+		o := DoRedefine(in.W, in.Target.Func, ropts)
 		res.Evals++
+		// the caller reuses its option slice afterwards: the redefined
+		// function must keep working with the options it was given
+		for i := range ropts {
+			ropts[i] = am.Named("overwritten", T5{ID: -7})
+		}
 		if c.Verbose {
 			fmt.Printf("redefine: class=%s err=%s\n", o.Class, firstLine(errStr(o.Err)))
 		}
